@@ -214,3 +214,21 @@ for _pid, _thms, _text in [
         "level_note": COMMON_NOTE + "Runnables are arbitrary environment processes unless a theorem states an assumption.",
         "design_ref": "DESIGN.md section 5, " + _pid,
     }
+
+PROPS["C05"] = {
+    "skeleton_fns": SUP_RELOAD + ["supervisor_PIDZero_reap", "supervisor_PIDZero_Run"],
+    "lean_modules": ["GoSup.Props.C05"],
+    "theorems": ["GoSup.Props.C05.c05_passes", "GoSup.Props.C05.c05_one_pass_per_request"],
+    "ties": [],
+    "legs": [{"name": "sup", "cmd": "sup"}],
+    "rule": SUP_RULE + " For C05 the trace is projected on the reload events (ReloadAll call/return, SIGHUP, ReloadSender trigger "
+            "intent/delivery, Reload begin/return per runnable); 'quiet' scenarios fire bursts of 0-4 reload requests from the three "
+            "sources and are snapshotted at rest while the supervisor is running.",
+    "assumptions": SUP_ASSUME,
+    "trusted_base": [],
+    "level_text": "Invariant proofs over the reload LTS (unbuffered hand-off as rendezvous) for any number of requesters and runnables: "
+                  "the Reload events are complete in-order passes followed by a prefix of one; passes started = requests handed over "
+                  "<= requests issued; a reload action touches no shutdown state.",
+    "level_note": COMMON_NOTE,
+    "design_ref": "DESIGN.md section 5, C05",
+}
